@@ -355,10 +355,102 @@ def _is_negative(test):
         and isinstance(test.ops[0], (ast.NotIn, ast.IsNot, ast.NotEq))
 
 
+def _pure_value(e):
+    if isinstance(e, (ast.Constant, ast.Name)):
+        return True
+    if isinstance(e, (ast.List, ast.Tuple)):
+        return all(_pure_value(x) for x in e.elts)
+    if isinstance(e, ast.Dict):
+        return all(k is not None and _pure_value(k) for k in e.keys) and all(
+            _pure_value(v) for v in e.values)
+    if isinstance(e, ast.BinOp):
+        return _pure_value(e.left) and _pure_value(e.right)
+    if isinstance(e, (ast.Attribute, ast.Subscript)):
+        return _simple_arg(e)
+    return False
+
+
+def _lazy_iter_loops(block):
+    """T = filter(P, S) / map(F, S) consumed by the `for` loop that follows (or written in its
+    header): the predicate / function is applied element by element as the loop runs --
+    for x in filter(P, S): B  ->  for x in S: if P(x): B ;
+    for y in map(F, S): B     ->  for e in S: y = F(e); B
+    and  T = D.setdefault(K, V)  (V a plain value)  ->  if K not in D: D[K] = V ; T = D[K]"""
+    out = []
+    i = 0
+    while i < len(block):
+        st = block[i]
+        nxt = block[i + 1] if i + 1 < len(block) else None
+        call = None
+        if isinstance(st, ast.For) and isinstance(st.iter, ast.Call):
+            call, loop, skip = st.iter, st, 1
+        elif isinstance(st, ast.Assign) and len(st.targets) == 1 \
+                and isinstance(st.targets[0], ast.Name) and isinstance(st.value, ast.Call) \
+                and isinstance(nxt, ast.For) and isinstance(nxt.iter, ast.Name) \
+                and nxt.iter.id == st.targets[0].id:
+            tname = st.targets[0].id
+            uses = sum(isinstance(n, ast.Name) and n.id == tname
+                       for b in block for n in ast.walk(b))
+            if uses == 2:
+                call, loop, skip = st.value, nxt, 2
+        if call is not None and isinstance(call.func, ast.Name) \
+                and call.func.id in ("filter", "map") and len(call.args) == 2 \
+                and not call.keywords and not loop.orelse and not _jumps_out(loop.body) \
+                and not isinstance(call.args[0], ast.Constant):
+            fn_, seq = call.args
+            if call.func.id == "filter":
+                test = ast.Call(func=fn_, args=[copy.deepcopy(loop.target)], keywords=[])
+                for n in ast.walk(test):
+                    if isinstance(n, (ast.Name, ast.Tuple, ast.List)) and hasattr(n, "ctx"):
+                        n.ctx = ast.Load()
+                body = [ast.If(test=test, body=loop.body, orelse=[])]
+                new = ast.For(target=loop.target, iter=seq, body=body, orelse=[])
+            else:
+                ev = f"elem__m{next(_counter)}"
+                asg = ast.Assign(targets=[loop.target], value=ast.Call(
+                    func=fn_, args=[ast.Name(id=ev, ctx=ast.Load())], keywords=[]))
+                new = ast.For(target=ast.Name(id=ev, ctx=ast.Store()), iter=seq,
+                              body=[asg] + loop.body, orelse=[])
+            ast.copy_location(new, loop)
+            ast.fix_missing_locations(new)
+            out.append(new)
+            i += skip
+            continue
+        if isinstance(st, (ast.Assign, ast.Expr)) and isinstance(st.value, ast.Call) \
+                and isinstance(st.value.func, ast.Attribute) \
+                and st.value.func.attr == "setdefault" and len(st.value.args) == 2 \
+                and not st.value.keywords and _simple_arg(st.value.func.value) \
+                and _simple_arg(st.value.args[0]) and _pure_value(st.value.args[1]) \
+                and (isinstance(st, ast.Expr) or (len(st.targets) == 1 and isinstance(
+                    st.targets[0], ast.Name))):
+            D, K, V = st.value.func.value, st.value.args[0], st.value.args[1]
+            guard = ast.If(
+                test=ast.Compare(left=copy.deepcopy(K), ops=[ast.NotIn()],
+                                 comparators=[copy.deepcopy(D)]),
+                body=[ast.Assign(targets=[ast.Subscript(value=copy.deepcopy(D),
+                                                        slice=copy.deepcopy(K),
+                                                        ctx=ast.Store())], value=V)],
+                orelse=[])
+            ast.copy_location(guard, st)
+            ast.fix_missing_locations(guard)
+            out.append(guard)
+            if isinstance(st, ast.Assign):
+                get = ast.Assign(targets=st.targets, value=ast.Subscript(
+                    value=copy.deepcopy(D), slice=copy.deepcopy(K), ctx=ast.Load()))
+                ast.copy_location(get, st)
+                ast.fix_missing_locations(get)
+                out.append(get)
+            i += 1
+            continue
+        out.append(st)
+        i += 1
+    return out
+
+
 def canon_block(block, in_loop=False, is_loop_body=False):
     out = []
     expanded = []
-    for st in block:
+    for st in _lazy_iter_loops(block):
         parts = _split_tuple_assign(st)
         expanded.extend(parts if parts else [st])
     block = expanded
@@ -1401,8 +1493,64 @@ def propagate(fn):
     return False
 
 
+def _unappend_aliases(fn):
+    """x = D[k] ... x += [e]: the name only ever holds the aliased object, so the append is
+    written on it (x.append(e)) and the alias can be propagated"""
+    defs, augs, other = {}, {}, set()
+    for n in ast.walk(fn):
+        if isinstance(n, ast.Assign) and len(n.targets) == 1 \
+                and isinstance(n.targets[0], ast.Name):
+            defs.setdefault(n.targets[0].id, []).append(n)
+        elif isinstance(n, ast.AugAssign) and isinstance(n.target, ast.Name):
+            if isinstance(n.op, ast.Add) and isinstance(n.value, ast.List) \
+                    and len(n.value.elts) == 1 \
+                    and not isinstance(n.value.elts[0], ast.Starred):
+                augs.setdefault(n.target.id, []).append(n)
+            else:
+                other.add(n.target.id)
+    for n in ast.walk(fn):
+        if isinstance(n, ast.Name) and isinstance(n.ctx, (ast.Store, ast.Del)):
+            par_ok = any(n is d.targets[0] for d in defs.get(n.id, [])) or any(
+                n is a.target for a in augs.get(n.id, []))
+            if not par_ok:
+                other.add(n.id)
+    changed = False
+    for name, al in augs.items():
+        if name in other or len(defs.get(name, [])) != 1:
+            continue
+        rhs = defs[name][0].value
+        if not isinstance(rhs, ast.Subscript) or not _alias_expr(rhs):
+            continue
+        for a in al:
+            call = ast.Expr(value=ast.Call(
+                func=ast.Attribute(value=ast.Name(id=name, ctx=ast.Load()), attr="append",
+                                   ctx=ast.Load()),
+                args=[a.value.elts[0]], keywords=[]))
+            ast.copy_location(call, a)
+            ast.fix_missing_locations(call)
+            # replace in the parent block
+            def swap(block):
+                for k, st in enumerate(block):
+                    if st is a:
+                        block[k] = call
+                        return True
+                    for field in ("body", "orelse", "finalbody"):
+                        b = getattr(st, field, None)
+                        if isinstance(b, list) and b and isinstance(b[0], ast.stmt) and swap(b):
+                            return True
+                    for h in getattr(st, "handlers", []) or []:
+                        if swap(h.body):
+                            return True
+                return False
+            if swap(fn.body):
+                changed = True
+    return changed
+
+
 def propagate_all(tree):
     for fn in [n for n in ast.walk(tree) if isinstance(n, ast.FunctionDef)]:
+        if _unappend_aliases(fn):
+            renumber(tree)
         for _ in range(60):
             if not propagate(fn):
                 break
@@ -2054,6 +2202,7 @@ def split_records(fn, classes):
 # becomes F(A.., ...)
 # ---------------------------------------------------------------------------------------------
 _STD = ("operator", "functools", "itertools", "collections")
+_OPS_PASS = None
 _BINOPS = {"add": ast.Add, "sub": ast.Sub, "mul": ast.Mult, "truediv": ast.Div,
            "floordiv": ast.FloorDiv, "mod": ast.Mod, "pow": ast.Pow, "matmul": ast.MatMult}
 _CMPOPS = {"eq": ast.Eq, "ne": ast.NotEq, "lt": ast.Lt, "le": ast.LtE, "gt": ast.Gt,
@@ -2133,6 +2282,8 @@ def std_spellings(tree):
             return n
     tree = Ops().visit(tree)
     ast.fix_missing_locations(tree)
+    global _OPS_PASS
+    _OPS_PASS = Ops
 
     # names bound exactly once to functools.partial(...) and only ever called
     def partial_defs(scope_body, walker):
@@ -2206,6 +2357,14 @@ def canonicalise(tree, sigs=None, pkg_methods=None):
             break
     tree = _KeysNorm().visit(tree)
     tree.body = canon_block(tree.body)
+    if _OPS_PASS is not None:
+        tree = _OPS_PASS().visit(tree)       # partial(F, a)(x) exposed by the loop rewrites
+        ast.fix_missing_locations(tree)
+        helpers_again = _Inliner(tree, pkg_methods)
+        if any(isinstance(n, ast.Call) and helpers_again.target(n) for n in ast.walk(tree)):
+            helpers_again.run()
+            tree.body = simplify_block(tree.body)
+            tree.body = canon_block(tree.body)
     for f in [n for n in ast.walk(tree) if isinstance(n, ast.FunctionDef)]:
         if not any(isinstance(n, (ast.Global, ast.Nonlocal)) for n in ast.walk(f)):
             block_propagate(f.body, {})
